@@ -407,6 +407,12 @@ def run_sparse(case, tmp):
     tri = hm._interpolator.tri
     vals = hm._interpolator.values
     stored = {p: z for p, z in zip(pts, zs)}
+    # conditioning of the data as Qhull sees it: smallest distance between two stored points over the largest coordinate
+    in_tri = set(int(i) for i in tri.simplices.ravel())
+    dropped = {p for i, p in enumerate(pts) if i not in in_tri}
+    big = max([abs(c) for p in pts for c in p] + [F(1)])
+    near = min((abs(a[0] - b[0]) + abs(a[1] - b[1])) for k, a in enumerate(pts) for b in pts[k + 1:] if a != b) if len(set(pts)) > 1 else F(1)
+    ratio = float(near / big)
     failures, lines, cmp, qs, impl, stats = [], [], [], [], [], []
     for x, y in case["queries"]:
         got = float(hm.get_depth_at(x, y))
@@ -422,7 +428,8 @@ def run_sparse(case, tmp):
         p = (F(float(x)), F(float(y)))
         where = classify(p, Hull)
         stats.append("sparse-q:" + ("stored-" if p in stored else "") + where)
-        info = {"query": [x, y], "stored": p in stored, "hull": where, "find_simplex": s, "returned": got}
+        info = {"query": [x, y], "stored": p in stored, "hull": where, "find_simplex": s, "returned": got,
+                "qhull_dropped": p in dropped, "spacing_ratio": ratio}
         if p in stored:
             want = F(sc) * stored[p]
             if not close(got, want):
@@ -964,6 +971,49 @@ def finding_predicate(fl) -> bool:
             and fl.get("find_simplex") == -1 and fl.get("returned") == 0.0)
 
 
+FINDING2_ID = "C19-sparse-far-origin-dropped-sample"
+WITNESS2_POINTS = [[1e5 + i * 0.01, j * 0.01, z] for i, z in enumerate((0.0, 0.0, 5.0, 5.0)) for j in (0, 1)]
+
+
+def finding2_predicate(fl) -> bool:
+    """Structural: the query is a stored sample, scipy's (Qhull's) triangulation has no simplex with that sample as a
+    vertex, and the data is ill-conditioned for Qhull: smallest distance between stored points <= 1e-6 x largest coordinate."""
+    return (fl.get("tag") == "sparse-stored" and fl.get("stored") is True and fl.get("qhull_dropped") is True
+            and fl.get("spacing_ratio", 1.0) <= 1e-6)
+
+
+def witness2_case():
+    return {"kind": "sparse", "gen": "witness-far", "points": WITNESS2_POINTS, "load": "array", "scale": 1.0, "tol": 0.1,
+            "queries": [[p[0], p[1]] for p in WITNESS2_POINTS], "lines": []}
+
+
+def witness2():
+    tmp = Tmp()
+    try:
+        r = run_sparse(witness2_case(), tmp)
+    finally:
+        tmp.close()
+    hits = [(t, m, i) for t, m, i in r["failures"] if finding2_predicate({"tag": t, **i})]
+    if hits:
+        return True, hits[0][1]
+    return False, "SparseHeightMap returns the stored heights of the witness point set 100 000 units from the origin"
+
+
+def gen_sparse_illcond(rng):
+    """oracle-only: small grids of probes whose spacing is 1e-9 ... 1e-6 of their distance to the origin, heights not on one plane"""
+    ox = rng.choice([1e2, 1e3, 1e4, 1e5, 2.5e5]) * rng.choice([1, -1])
+    step = abs(ox) * rng.choice([1e-6, 3e-7, 1e-7, 5e-8, 1e-8])
+    nx, ny = rng.randint(2, 5), rng.randint(2, 4)
+    along_x = rng.random() < 0.5
+    pts = []
+    for i in range(nx):
+        for j in range(ny):
+            x, y = ox + i * step, j * step
+            pts.append([x, y, float(rng.randint(0, 5))] if along_x else [y, x, float(rng.randint(0, 5))])
+    return {"kind": "sparse", "gen": "illcond", "points": pts, "load": "array", "scale": rng.choice([1.0, 2.0, 0.5]), "tol": 0.1,
+            "queries": [[p[0], p[1]] for p in pts], "lines": []}
+
+
 def witness():
     tmp = Tmp()
     try:
@@ -1034,6 +1084,9 @@ def run(R: core.Run):
     far = ([gen_sparse_far(R.rng) for _ in range(R.n(40, 600))] + [gen_sparse_shifted(R.rng) for _ in range(R.n(10, 150))]
            + [gen_raster_strip(R.rng) for _ in range(R.n(4, 40))])
     run_batch(R, far, "far")
+    # probes whose spacing is a 10^-6 .. 10^-8 fraction of their distance to the origin (the listed Qhull finding lives here;
+    # any other failure on these inputs is a violation); oracle only
+    run_batch(R, [witness2_case()] + [gen_sparse_illcond(R.rng) for _ in range(R.n(30, 400))], "ill-conditioned", with_model=False)
     if R.thorough:
         # small scope, exhaustive: every Bresenham line between pixels of a 7 x 6 window (incl. outside a 4 x 5 image)
         ex = [f"lineR x1={a} y1={b} x2={c} y2={d}" for a in range(-1, 6) for b in range(-1, 5) for c in range(-1, 6) for d in range(-1, 5)]
@@ -1058,7 +1111,7 @@ def run(R: core.Run):
                 + [gen_filter(R.rng) for _ in range(R.n(1000, 5000))]
                 + [gen_sparse_far(R.rng) for _ in range(R.n(60, 300))] + [gen_raster_strip(R.rng) for _ in range(R.n(4, 20))])
         run_batch(R, more, "search", with_model=False)
-    return {FINDING_ID: finding_predicate}, {FINDING_ID: witness}
+    return {FINDING_ID: finding_predicate, FINDING2_ID: finding2_predicate}, {FINDING_ID: witness, FINDING2_ID: witness2}
 
 
 def replay(data):
